@@ -610,4 +610,8 @@ LEVEL_NOTE = ('Trusted: Lean kernel; axioms propext/Quot.sound/Classical.choice 
               'concurrently with an interleaving-independent expected outcome (ASan only, no TSan); (3) the batch processor is '
               'modelled only as "queued at OnEnd, exported at ForceFlush" (its protocol is C01-C03); (4) span identity is C05.')
 DESIGN_REF = 'DESIGN.md section 4, C04'
+for _m in SUBS:
+    RULE = RULE + ' | ' + getattr(_m, 'RULE', '')
+    LEVEL_TEXT = LEVEL_TEXT + getattr(_m, 'LEVEL_TEXT_ADD', '')
+    LEVEL_NOTE = LEVEL_NOTE + getattr(_m, 'LEVEL_NOTE_ADD', '')
 TECHNIQUE = 'proof (Lean 4) + differential correspondence run + implementation-side oracle'
